@@ -2,8 +2,8 @@ SPECIFICATION Spec
 CONSTANT Cfg <- MCCfg5
 CONSTANT Limits = {1, 2, 3}
 CONSTANT MinEdges = 4
-CONSTANT MaxEdges = 4
-CONSTANT Sample = TRUE
+CONSTANT MaxEdges = 6
+CONSTANT Sample = FALSE
 CONSTANT LegalOnly = FALSE
 CONSTRAINT Bounded
 VIEW View
